@@ -194,6 +194,7 @@ type puSample struct {
 	Scripts  [][]string `json:"scripts"`
 	Corpus   []string   `json:"corpus_entries_used"`
 	Switches int64      `json:"switches"`
+	Sched    []string   `json:"first_context_switches,omitempty"`
 }
 
 func commonPrefix(a, b string) string {
@@ -414,6 +415,7 @@ func runPurity(rc *RunCtx) {
 		rc.faults["preempt"] += sched.switches
 		rc.ev.add(sched.trace.h)
 		sample.Switches = sched.switches
+		sample.Sched = sched.scheduleTrace()
 		if sched.switches > 0 {
 			rc.probe("repetitions_interleaved_at_statement_level")
 		}
